@@ -14,9 +14,10 @@ REPO = os.environ.get("CELLO_REPO", "/repo")
 NPROC = int(os.environ.get("VERIF_JOBS", "16"))
 MEM_KB = 10 * 1024 * 1024
 
+# undefined-behaviour checks only; --conversion-check is left out on purpose: it also flags the
+# well-defined modular signed->unsigned conversions Cello uses for hashing
 SAFETY = ["--bounds-check", "--pointer-check", "--signed-overflow-check",
-          "--conversion-check", "--pointer-overflow-check", "--div-by-zero-check",
-          "--undefined-shift-check"]
+          "--pointer-overflow-check", "--div-by-zero-check", "--undefined-shift-check"]
 
 
 class Job:
@@ -154,6 +155,7 @@ def apply_overlay(src_path, ovl_path, dst_path):
         else:
             cur["clauses"].append(line)
     text = src
+    injected = []
     for b in blocks:
         # locate function definition: "<fn>(" at a line start region followed by '{'
         m = re.search(r"^[A-Za-z_][^\n;]*\b%s\s*\([^;{]*\)\s*\{" % re.escape(b["fn"]), text, re.M)
@@ -186,19 +188,17 @@ def apply_overlay(src_path, ovl_path, dst_path):
         if " ".join(header.split()) != " ".join(b["header"].split()):
             return "overlay: loop header of %s#%d is %r, expected %r" % (b["fn"], b["ord"], header, b["header"])
         inject = "\n" + "\n".join(b["clauses"]) + "\n"
-        # keep the remainder of the line: we insert the clauses on their own lines after the header
-        new_body = body[:j] + inject + body[j:].lstrip("\n") if body[j:j + 1] == "\n" else body[:j] + inject + body[j:]
-        text = text[:body_start] + new_body + text[body_end:]
+        injected.append(inject)
+        text = text[:body_start] + body[:j] + inject + body[j:] + text[body_end:]
     open(dst_path, "w").write(text)
-    # self-check: stripping the clauses gives back the original (modulo the newline we add)
-    stripped = strip_clauses(text)
-    if "".join(stripped.split()) != "".join(src.split()):
+    # self-check: removing exactly the injected clause text gives back the original byte for byte
+    back = text
+    for inj in injected:
+        if back.count(inj) != 1:
+            return "overlay: injected clause text is not unique in the copy"
+        back = back.replace(inj, "")
+    if back != src:
         return "overlay: injected copy of %s does not strip back to the original" % src_path
-    # stronger: token-for-token line sequence comparison ignoring blank lines
-    a = [l.rstrip() for l in stripped.splitlines() if l.strip()]
-    bb = [l.rstrip() for l in src.splitlines() if l.strip()]
-    if " ".join(a) != " ".join(bb):
-        return "overlay: injected copy differs from the original after stripping"
     return None
 
 
@@ -234,7 +234,7 @@ def run_job(job, scratch, cover_pass=False):
     inc = ["-I" + REPO, "-I" + os.path.join(REPO, "include"), "-I" + VERIF]
     defs = ["-DCELLO_VERIF"] + ["-D" + d for d in job.defines] + ["-D" + d for d in job.config]
     if cover_pass:
-        defs.append("-DCOVER")
+        defs.append("-DCV_COVER_PASS")
     srcs = [os.path.join(VERIF, "harness", job.harness)]
     if job.overlay:
         src_rel, ovl = job.overlay
@@ -326,6 +326,9 @@ def run_job(job, scratch, cover_pass=False):
     for r in results:
         res.obligations.append((r.get("property", "?"), r.get("description", ""), r.get("status", "?")))
     res.status = "ok" if all(o[2] == "SUCCESS" for o in res.obligations) else "failed"
+    if not any(o[2] == "FAILURE" for o in res.obligations) and any(o[2] != "SUCCESS" for o in res.obligations):
+        res.error = "cbmc left %d obligations undecided (status %s)" % (
+            sum(1 for o in res.obligations if o[2] != "SUCCESS"), sorted(set(o[2] for o in res.obligations if o[2] != "SUCCESS")))
     res.seconds = time.time() - t0
     return res
 
@@ -355,6 +358,8 @@ def trace_inputs(res, prop_name, timeout=300):
                     if base.startswith("in_") or base.startswith("gh_"):
                         v = s.get("value", {})
                         val = v.get("data", v.get("name"))
+                        if v.get("name") == "float" and v.get("width") == 64 and "binary" in v:
+                            val = "cv_bits2d(0x%016xULL)" % int(v["binary"], 2)
                         if val is None and "elements" in v:
                             val = "{" + ",".join(str(e.get("value", {}).get("data")) for e in v["elements"]) + "}"
                         inputs[lhs] = val
@@ -436,7 +441,8 @@ def native_replay(job, inputs, scratch, text):
     except Exception as e:
         return None, "native build failed: %s" % e
     wd = tempfile.mkdtemp(dir=scratch)
-    hdr = ["/* counterexample inputs extracted from the cbmc trace */"]
+    hdr = ["/* counterexample inputs extracted from the cbmc trace */",
+           "static inline double cv_bits2d(unsigned long long b) { union { unsigned long long u; double d; } x; x.u = b; return x.d; }"]
     seen = set()
     for k, v in inputs.items():
         name = re.sub(r"[^A-Za-z0-9_]", "_", k)
@@ -539,7 +545,7 @@ def check_property(prop, jobs, tier, level, explanation, trusted, seed=0, quiet=
                 errors.append("%s: loop contract silently dropped (no loop_invariant_step obligation)" % j.name)
             if len(samples) < 6 and mine:
                 samples.append({"job": j.name, "kind": j.kind, "obligation": mine[-1][0], "description": mine[-1][1], "status": mine[-1][2], "case": j.case})
-            failed = [o for o in mine if o[2] != "SUCCESS"]
+            failed = [o for o in mine if o[2] == "FAILURE"]
             nobody = [o for o in failed if ".no-body." in o[0]]
             if nobody:
                 errors.append("%s: harness links no body for %s" % (j.name, ", ".join(sorted(set(o[0].split(".no-body.")[1] for o in nobody)))))
@@ -552,11 +558,9 @@ def check_property(prop, jobs, tier, level, explanation, trusted, seed=0, quiet=
                 if what:
                     known_hits.append((j.name, key, what))
                     continue
-                dkey = re.sub(r"\.\d+$", "", n) + d
-                if dkey in seen_desc and traced >= 1:
+                if traced >= 2:
                     violations.append((j, n, d, None))
                     continue
-                seen_desc.add(dkey)
                 if traced < 3:
                     inputs, text = trace_inputs(r, n)
                     traced += 1
@@ -569,6 +573,7 @@ def check_property(prop, jobs, tier, level, explanation, trusted, seed=0, quiet=
                 with open(rp, "w") as f:
                     f.write("property: %s\njob: %s (%s)\nfailed obligation: %s\ndescription: %s\ncase: %s\n" % (prop, j.name, j.kind, n, d, j.case))
                     f.write("functions under contract: %s\n" % ", ".join(j.functions))
+                    f.write("all failed obligations of this job: %s\n" % "; ".join("%s (%s)" % (a, b) for a, b, c in failed))
                     f.write("verifier command: %s\n" % " ".join(getattr(r, "cmd", [])))
                     f.write("--- verifier counterexample (harness inputs) ---\n%s\n" % text)
                     f.write("--- native replay against the repo working tree ---\n")
